@@ -124,6 +124,45 @@ def roundtrip(db):
     return True, 'ok', {'dbml': text}, d1
 
 
+def warm_and_edit(rng, db):
+    """The database is rendered once and then edited in place through plain attribute assignment / public methods: it is still
+    a database built through the public classes, and what is rendered next must be what it holds NOW. -> list of edits"""
+    from pydbml.classes import Column, Note
+    O.run(lambda: db.dbml)
+    done = []
+    for _ in range(rng.randint(1, 3)):
+        if not db.tables:
+            break
+        t = rng.choice(list(db.tables))
+        kind = rng.choice(['tname', 'addcol', 'cnote', 'cflag', 'cname', 'tnote'])
+        if kind == 'tname':
+            new = t.name + '_v2'
+            if not any(x.name == new for x in db.tables):
+                t.name = new
+                done.append(kind)
+        elif kind == 'addcol':
+            new = f'added_{len(t.columns)}'
+            if not any(c.name == new for c in t.columns):
+                t.add_column(Column(new, 'int'))
+                done.append(kind)
+        elif kind == 'tnote':
+            t.note = Note('edited table note')
+            done.append(kind)
+        elif t.columns:
+            c = rng.choice(list(t.columns))
+            if kind == 'cnote':
+                c.note = Note('edited')
+            elif kind == 'cflag':
+                c.unique = not c.unique
+            else:
+                new = c.name + '_v2'
+                if any(x.name == new for x in t.columns):
+                    continue
+                c.name = new
+            done.append(kind)
+    return done
+
+
 def job(j):
     kind, seed = j
     rng = random.Random(seed)
@@ -145,6 +184,10 @@ def job(j):
             spec = GD.gen_spec(rng, wild=True, max_tables=3)
             db, _ = GD.build(spec)
             src = {'kind': kind, 'spec': spec}
+        if rng.random() < 0.3:
+            # a third of the databases has a history: rendered before, edited since (job = [kind, seed] replays it)
+            src['history'] = warm_and_edit(rng, db)
+            src['job'] = [kind, seed]
     except Exception as e:  # noqa: BLE001
         return {'skip': f'{kind}-source:' + type(e).__name__}
     ok, how, detail, d1 = roundtrip(db)
@@ -250,6 +293,8 @@ def main(tier, seed):
         ctx.case(core.h(r['dump']), len(r['dump']['tables']) >= 1 and len(r['features']) >= 2,
                  sample={'kind': kind, 'features': r['features'], 'reasons': r['reasons'], 'roundtrip': r['how']} if k % 200 == 0 else None)
         ctx.count('source:' + kind)
+        if r['src'].get('history'):
+            ctx.count('history:rendered-edited-rendered')
         for rs in r['reasons'] or ['in-domain']:
             ctx.count('reason:' + rs)
         # values DBML has no syntax for are outside the statement only for API-built databases: a database obtained
@@ -314,4 +359,8 @@ def main(tier, seed):
 def replay(path):
     case = json.load(open(path))
     print(json.dumps(case, indent=1)[:5000])
+    src = case.get('case', {}).get('src', {})
+    if src.get('job'):
+        r = job(tuple(src['job']))
+        print('replayed job', src['job'], '->', {k: r.get(k) for k in ('ok', 'how', 'detail')})
     return 0
